@@ -309,6 +309,10 @@ class Exec(Engine):
         if isinstance(v, (VStr, VCh)):
             return [(st, VFn(('strmethod', v, name)))]
         if isinstance(v, VList):
+            if name not in ('append', 'pop', 'clear', 'insert', 'extend', 'sort', 'reverse', 'remove', 'copy',
+                            'index', 'count'):
+                self.prove(st, FALSE, 'aorte', node, "AttributeError: 'list' object has no attribute %r" % name)
+                raise PathDead()
             return [(st, VFn(('listmethod', v, name)))]
         if isinstance(v, (VRec, VConst)):
             return [(st, VFn(('dictmethod', v, name)))]
@@ -521,6 +525,10 @@ class Exec(Engine):
             self.fresh_list_contents(st, new)
             st.assume(self.list_len(st, new) == la + lb)
             return [(st, new)]
+        if isinstance(a, VNone) or isinstance(b, VNone):
+            self.prove(st, FALSE, 'aorte', node, 'TypeError: unsupported operand type(s) for %s: %s and %s: %s'
+                       % (type(op).__name__, a.kind, b.kind, ast.unparse(node)))
+            raise PathDead()
         raise Unsupported('binary operator %s on %s, %s' % (type(op).__name__, a.kind, b.kind), node)
 
     def as_str(self, v):
